@@ -5,8 +5,11 @@ P="$1"; ID="$2"; TIER="${3:-quick}"
 cd /repo || exit 2
 git diff --quiet || { echo "repo dirty"; exit 2; }
 git apply "$P" || { echo "patch does not apply"; exit 2; }
+cp /verif/evidence/$ID.json /verif/.work/evidence_$ID.bak 2>/dev/null
 cd /verif && ./check "$ID" --tier "$TIER" > /verif/.work/seedtest_$ID.log 2>&1
 RC=$?
+# the evidence file must describe the unchanged tree: put the previous one back
+cp /verif/.work/evidence_$ID.bak /verif/evidence/$ID.json 2>/dev/null
 git -C /repo checkout -- .
 echo "seed=$P check=$ID tier=$TIER exit=$RC"
 grep -E "^VIOLATION|^KNOWN|TOOL-ERROR" /verif/.work/seedtest_$ID.log | cut -c1-220 | head -8
